@@ -28,7 +28,7 @@ def run(name):
     try:
         for item in g.fn():
             oname, ok, witness, backend = item
-            out['obligations'].append(dict(name='%s/%s' % (name, oname), verdict='proved' if ok else 'refuted', ms=0.0,
+            out['obligations'].append(dict(name='%s/%s' % (name, oname), verdict='unknown' if ok is None else ('proved' if ok else 'refuted'), ms=0.0,
                                            backend=backend, tags=[], line=None, model=witness, info=None))
     except Exception as e:
         out['error'] = '%s: %s\n%s' % (type(e).__name__, e, traceback.format_exc())
